@@ -2589,6 +2589,10 @@ class sptensor:
                     i[n] = np.array(keyCopy[n], ndmin=2)
                 addsubs[:, n] = ttb.khatrirao(*i).transpose()[:]
 
+            # an index repeated inside a key list addresses its entry once
+            _, first = np.unique(addsubs, axis=0, return_index=True)
+            addsubs = addsubs[np.sort(first)]
+
             if self.subs.size > 0:
                 # Replace existing values
                 loc = tt_intersect_rows(self.subs, addsubs)
@@ -2604,9 +2608,6 @@ class sptensor:
                         (self.vals, value * np.ones((addsubs.shape[0], 1)))
                     )
                 else:
-                    # an index repeated inside a key list addresses its entry once
-                    _, first = np.unique(addsubs, axis=0, return_index=True)
-                    addsubs = addsubs[np.sort(first)]
                     self.subs = addsubs.astype(int)
                     self.vals = value * np.ones((addsubs.shape[0], 1))
             return
